@@ -229,6 +229,9 @@ func buildPossibleTypeMap(gq *Schema) map[string]map[string]bool {
 //Edited. To check add Types at RunTime..
 //Append Runtime schema to typeMap
 func (gq *Schema) AppendType(objectType Type) error {
+	if isNilType(objectType) {
+		return errors.New("Schema types must not contain nil.")
+	}
 	if objectType.Error() != nil {
 		return objectType.Error()
 	}
